@@ -36,7 +36,10 @@ type Node struct {
 
 	// any node
 	Nullable bool
-	Optional bool // meaningful for object properties only
+	Optional bool // `optional: true`; meaningful for object properties only
+	Required bool // `optional: false` written out (object properties only; never together with Optional). A property
+	// with neither rule is UNMARKED: required in a schema object created plainly, optional in one created with
+	// jschema.KeysAreOptionalByDefault() (TypeDef.Opt / Graph.RootOpt)
 
 	// KArr
 	Items []*Node
@@ -57,13 +60,43 @@ type Prop struct {
 type TypeDef struct {
 	Name string
 	Body *Node
+	Opt  bool // this type's schema OBJECT is created with jschema.KeysAreOptionalByDefault()
 }
 
 // Graph: a root schema and the user types registered with AddType (in this order). A type
 // that is referenced but absent from Types is a MISSING type.
+// The option KeysAreOptionalByDefault belongs to ONE schema object: the root and every added type carry their own
+// setting (RootOpt, TypeDef.Opt), and it decides the unmarked keys of the objects written in THAT object's text only.
 type Graph struct {
-	Root  *Node
-	Types []TypeDef
+	Root    *Node
+	RootOpt bool
+	Types   []TypeDef
+}
+
+// Opt: the option of the schema object registered under name (false for a missing type).
+func (g *Graph) Opt(name string) bool {
+	for i := range g.Types {
+		if g.Types[i].Name == name {
+			return g.Types[i].Opt
+		}
+	}
+	return false
+}
+
+// AnyOpt: some schema object of the graph is created with the option.
+func (g *Graph) AnyOpt() bool {
+	for i := range g.Types {
+		if g.Types[i].Opt {
+			return true
+		}
+	}
+	return g.RootOpt
+}
+
+// PropOptional: may a document leave out a property whose value node is v, written in the text of a schema object
+// whose option is opt? `optional: true` yes, `optional: false` no, unmarked = the object's option.
+func PropOptional(v *Node, opt bool) bool {
+	return v.Optional || (opt && !v.Required)
 }
 
 func (g *Graph) Type(name string) *Node {
@@ -110,6 +143,8 @@ func (n *Node) rules() string {
 	}
 	if n.Optional {
 		rr = append(rr, "optional: true")
+	} else if n.Required {
+		rr = append(rr, "optional: false")
 	}
 	if n.Nullable {
 		rr = append(rr, "nullable: true")
@@ -246,7 +281,13 @@ func (g *Graph) Missing(root *Node) []string {
 // literal yes; array yes (may be empty); object iff every non-optional property is (a key
 // shortcut needs its key type as well) and every allOf parent is; reference iff the type is
 // (`nullable` on a reference is deliberately NOT a breaker); or-list iff some member is.
-func Inhabited(n *Node, ok map[string]bool) bool {
+// n is read as text of a schema object created WITHOUT KeysAreOptionalByDefault.
+func Inhabited(n *Node, ok map[string]bool) bool { return InhabitedIn(n, ok, false) }
+
+// InhabitedIn: the same for a node written in the text of a schema object whose option is opt (PropOptional decides
+// which properties a value may leave out). An allOf parent contributes through its own inhabitation (computed with
+// the PARENT's option: its required-keys list is what the heir copies).
+func InhabitedIn(n *Node, ok map[string]bool, opt bool) bool {
 	switch n.Kind {
 	case KLit:
 		if n.TypeRef != "" {
@@ -273,13 +314,13 @@ func Inhabited(n *Node, ok map[string]bool) bool {
 			}
 		}
 		for _, p := range n.Props {
-			if p.Val.Optional {
+			if PropOptional(p.Val, opt) {
 				continue
 			}
 			if p.Shortcut && !ok[p.Key] {
 				return false
 			}
-			if !Inhabited(p.Val, ok) {
+			if !InhabitedIn(p.Val, ok, opt) {
 				return false
 			}
 		}
@@ -298,13 +339,19 @@ func anyMember(mm []string, ok map[string]bool) bool {
 }
 
 // InhabitedTypes computes the least fixpoint over the defined types (missing types are
-// uninhabited).
-func (g *Graph) InhabitedTypes() map[string]bool {
+// uninhabited), every type body read with its OWN object's option.
+func (g *Graph) InhabitedTypes() map[string]bool { return g.inhabitedTypes(false) }
+
+// InhabitedTypesConservative: the same with every unmarked key read as required whatever the object's option (the
+// reading under which fewest graphs are legal: legal here => legal per object).
+func (g *Graph) InhabitedTypesConservative() map[string]bool { return g.inhabitedTypes(true) }
+
+func (g *Graph) inhabitedTypes(ignoreOpt bool) map[string]bool {
 	ok := map[string]bool{}
 	for changed := true; changed; {
 		changed = false
 		for _, t := range g.Types {
-			if !ok[t.Name] && Inhabited(t.Body, ok) {
+			if !ok[t.Name] && InhabitedIn(t.Body, ok, t.Opt && !ignoreOpt) {
 				ok[t.Name] = true
 				changed = true
 			}
@@ -316,9 +363,15 @@ func (g *Graph) InhabitedTypes() map[string]bool {
 // Canon: canonical text of a case.
 func (g *Graph) Canon() string {
 	var sb strings.Builder
-	sb.WriteString("ROOT " + g.Root.Text())
+	mark := func(opt bool) string {
+		if opt {
+			return "[KeysAreOptionalByDefault] "
+		}
+		return ""
+	}
+	sb.WriteString("ROOT " + mark(g.RootOpt) + g.Root.Text())
 	for _, t := range g.Types {
-		sb.WriteString("\nTYPE " + t.Name + " = " + t.Body.Text())
+		sb.WriteString("\nTYPE " + mark(t.Opt) + t.Name + " = " + t.Body.Text())
 	}
 	return sb.String()
 }
